@@ -742,6 +742,16 @@ func (multi *MultiEpoch) processSlotTransactions(
 	gsfaReader *gsfa.GsfaReaderMultiepoch,
 	gsfaReadersLoaded bool,
 ) error {
+	if filter != nil {
+		// validate the account strings once, so that the MustPublicKeyFromBase58 calls below cannot panic.
+		for _, accounts := range [][]string{filter.AccountInclude, filter.AccountExclude, filter.AccountRequired} {
+			for _, acc := range accounts {
+				if _, err := solana.PublicKeyFromBase58(acc); err != nil {
+					return status.Errorf(codes.InvalidArgument, "invalid account %q in filter: %v", acc, err)
+				}
+			}
+		}
+	}
 
 	// txMatchesFilter reports whether the transaction satisfies the filter (i.e. must be streamed).
 	txMatchesFilter := func(tx solana.Transaction, meta any) bool {
@@ -749,11 +759,12 @@ func (multi *MultiEpoch) processSlotTransactions(
 			return true
 		}
 
-		if !(*filter.Vote) && IsSimpleVoteTransaction(&tx) { // If vote is false, we should filter out vote transactions
+		// NOTE: vote and failed are optional; when absent they do not restrict the stream.
+		if filter.Vote != nil && !(*filter.Vote) && IsSimpleVoteTransaction(&tx) { // If vote is false, we should filter out vote transactions
 			return false
 		}
 
-		if !(*filter.Failed) { // If failed is false, we should filter out failed transactions
+		if filter.Failed != nil && !(*filter.Failed) { // If failed is false, we should filter out failed transactions
 			err := getErr(meta)
 			if err != nil {
 				return false
